@@ -3,7 +3,7 @@ from tools.extract import Unit, Rw
 from tools.krun import Harness
 
 PROPERTY = "C02"
-PRELUDE = ["../common/base.rs", "prelude.rs", "blob_specs.rs"]
+PRELUDE = ["../common/base.rs", "prelude.rs", "blob_specs.rs", "used.rs"]
 BL = "crates/core/src/blob.rs"
 W = dict(wrap_open="impl<T> BlobLocations<T> {", wrap_close="}")
 
@@ -133,7 +133,7 @@ UNITS += [
              Rw("", "verr()", count=None, kind="err", why="RusticError construction dropped"),
              Rw("check_size()?;", "vcheck_size(existing_size, pack.size)?;", count=None, why="local closure check_size (size comparison with the listing) -> stub"),
              Rw("for blob in &pack.blobs {", "for blob in it: pack.blobs.iter() {", why="Verus for-loop syntax"),
-             Rw("_ = self.used_ids.remove(&blob.id);", "let _ = vused_ids_remove(&mut this.used_ids, &blob.id, Ghost(pack.to_do));", why="BTreeMap::remove on used_ids -> effectful stub whose PRECONDITION is 'the pack is a safe holder'"),
+             Rw("_ = self.used_ids.remove(&(blob.tpe, blob.id));", "let _ = vused_ids_remove(&mut this.used_ids, &(blob.tpe, blob.id), Ghost(pack.to_do));", why="BTreeMap::remove on used_ids -> effectful stub whose PRECONDITION is 'the pack is a safe holder'"),
          ],
          loops={1: "\n                        invariant safe_holder(pack.to_do),\n"},
          contract="""
@@ -150,21 +150,21 @@ UNITS += [
          functions=["commands::prune::PrunePlan::check"],
          rewrites=[
              Rw("", "verr()", count=None, kind="err", why="RusticError construction dropped"),
-             Rw("for (id, count) in &self.used_ids {", "let ents = self.used_ids.ventries(); for e in it: ents.iter() { let (id, count) = (&e.0, &e.1);", why="map iteration -> entries vector; Verus for-loop syntax"),
+             Rw("for ((_, id), count) in &self.used_ids {", "let ents = self.used_ids.ventries(); for e in it: ents.iter() { let (id, count) = (&e.0.1, &e.1);", why="map iteration -> entries vector; Verus for-loop syntax"),
          ],
          contract="""
     ensures
         // prune goes on only if every blob a snapshot uses was found in some index file
-        /*@ok_only_if_every_used_blob_is_indexed*/ r is Ok ==> forall|k: u64| self.used_ids@.dom().contains(k) ==> #[trigger] self.used_ids@[k] != 0,
-        /*@missing_blob_is_an_error*/ r is Err ==> exists|k: u64| self.used_ids@.dom().contains(k) && #[trigger] self.used_ids@[k] == 0,
+        /*@ok_only_if_every_used_blob_is_indexed*/ r is Ok ==> forall|k: (BlobType, u64)| self.used_ids@.dom().contains(k) ==> #[trigger] self.used_ids@[k] != 0,
+        /*@missing_blob_is_an_error*/ r is Err ==> exists|k: (BlobType, u64)| self.used_ids@.dom().contains(k) && #[trigger] self.used_ids@[k] == 0,
 """,
          loops={1: """
             invariant
                 forall|i: int| 0 <= i < it.index@ ==> (#[trigger] ents@[i]).1 != 0,
-                forall|i: int| 0 <= i < ents@.len() ==> self.used_ids@.dom().contains((#[trigger] ents@[i]).0._opaque) && self.used_ids@[ents@[i].0._opaque] == ents@[i].1,
-                forall|k: u64| self.used_ids@.dom().contains(k) ==> exists|i: int| 0 <= i < ents@.len() && (#[trigger] ents@[i]).0._opaque == k,
+                forall|i: int| 0 <= i < ents@.len() ==> self.used_ids@.dom().contains(((#[trigger] ents@[i]).0.0, ents@[i].0.1._opaque)) && self.used_ids@[(ents@[i].0.0, ents@[i].0.1._opaque)] == ents@[i].1,
+                forall|k: (BlobType, u64)| self.used_ids@.dom().contains(k) ==> exists|i: int| 0 <= i < ents@.len() && ((#[trigger] ents@[i]).0.0, ents@[i].0.1._opaque) == k,
 """},
-         hints=[("loop_start", "1", "            proof { assert(ents@[it.index@] == *e); assert(self.used_ids@.dom().contains(e.0._opaque) && self.used_ids@[e.0._opaque] == e.1); }")],
+         hints=[("loop_start", "1", "            proof { assert(ents@[it.index@] == *e); assert(self.used_ids@.dom().contains((e.0.0, e.0.1._opaque)) && self.used_ids@[(e.0.0, e.0.1._opaque)] == e.1); }")],
          ),
 ]
 
@@ -187,7 +187,7 @@ UNITS += [
              Rw("delete_pack(&pack)", "removed.vdelete_pack(&pack)", count=None, why="local closure delete_pack -> effectful stub whose PRECONDITION is 'this decision allows removal'"),
              Rw("indexer.add(pack)?", "indexer.vadd(pack, Ghost(decision))?", count=None, why="Indexer::add (live section) -> effectful stub: PRECONDITION 'the decision keeps the pack live'"),
              Rw("indexer.add_remove(pack)?", "indexer.vadd_remove(pack, Ghost(decision), Ghost(mark_time0), Ghost(prune_time))?", count=None, why="Indexer::add_remove (marked section) -> effectful stub: PRECONDITION 'the decision allows marking'"),
-             Rw("pack.blobs\n                        .retain(|blob| used_ids.remove(&blob.id).is_some());", "vretain_still_used(&mut pack.blobs, used_ids);", why="Vec::retain with the closure literal |blob| used_ids.remove(&blob.id).is_some() -> stub (assumed contract)"),
+             Rw("pack.blobs\n                        .retain(|blob| used_ids.remove(&(blob.tpe, blob.id)).is_some());", "vretain_still_used(&mut pack.blobs, used_ids);", why="Vec::retain with the closure literal |blob| used_ids.remove(&(blob.tpe, blob.id)).is_some() -> stub (assumed contract; the key is the TYPED blob identity)"),
              Rw("pack.blobs.sort_unstable();", "vsort_blobs_c02(&mut pack.blobs);", why="sort_unstable: permutation"),
          ],
          contract="""
@@ -323,6 +323,44 @@ UNITS += [
         /*@index_changing_decision_forces_rewrite*/ (p.to_do == PackToDo::Repack || p.to_do == PackToDo::MarkDelete || p.to_do == PackToDo::Recover
             || p.to_do == PackToDo::Delete || p.to_do == PackToDo::KeepMarkedAndCorrect) ==> r,
 """),
+]
+
+# ---- find_used_blobs: the per-tree node loop records every blob a snapshot needs under its TYPED identity
+UNITS += [
+    Unit(name="find_used_nodes", file=PR, kind="block", within="fn find_used_blobs<S>(",
+         anchor="for node in tree.nodes {", block_end="@for_end",
+         block_sig="fn find_used_nodes(tree: &TreeU, ids: &mut VIdMap)",
+         block_tail="",
+         functions=["commands::prune::find_used_blobs (per-tree node loop: which blobs are recorded as needed)"],
+         rewrites=[
+             Rw("for node in tree.nodes {", "for node in it: tree.nodes.iter() {", why="by-value iteration -> by reference; Verus for-loop syntax"),
+             Rw(r"ids\.extend\(\s*node\.content\s*\.iter\(\)\s*\.flatten\(\)\s*\.map\(\|id\| \(\((BlobType::\w+), BlobId::from\(\*\*id\)\), 0\)\),\s*\);", r"vextend_used(ids, &node.content, \1);" + "\n" * 5, regex=True,
+                why="Extend with an iterator adapter chain -> stub: every content id inserted under the type named in the closure literal"),
+             Rw("BlobId::from(*node.subtree.unwrap())", "vblobid_of_tree(node.subtree.unwrap())", why="TreeId -> BlobId (same bytes)"),
+         ],
+         contract="""
+    requires
+        // a directory node has a subtree (otherwise `unwrap` panics: prune aborts, nothing is removed)
+        forall|i: int| 0 <= i < tree.nodes@.len() ==> ((#[trigger] tree.nodes@[i]).node_type is Dir ==> tree.nodes@[i].subtree is Some),
+    ensures
+        /*@nothing_forgotten*/ forall|k: (BlobType, u64)| old(ids).m@.dom().contains(k) ==> final(ids).m@.dom().contains(k),
+        // every chunk of every file is needed AS DATA BLOB, every sub-directory AS TREE BLOB
+        /*@file_chunks_needed_as_data*/ forall|i: int, j: int| 0 <= i < tree.nodes@.len() && tree.nodes@[i].node_type is File && 0 <= j < content_ids_of(tree.nodes@[i].content).len()
+            ==> final(ids).m@.dom().contains((BlobType::Data, (#[trigger] content_ids_of(tree.nodes@[i].content)[j]).v)),
+        /*@subtrees_needed_as_tree*/ forall|i: int| 0 <= i < tree.nodes@.len() && (#[trigger] tree.nodes@[i]).node_type is Dir
+            ==> final(ids).m@.dom().contains((BlobType::Tree, tree.nodes@[i].subtree->0.v)),
+""",
+         loops={1: """
+        invariant
+            forall|i: int| 0 <= i < tree.nodes@.len() ==> ((#[trigger] tree.nodes@[i]).node_type is Dir ==> tree.nodes@[i].subtree is Some),
+            forall|k: (BlobType, u64)| old(ids).m@.dom().contains(k) ==> ids.m@.dom().contains(k),
+            forall|i: int, j: int| 0 <= i < it.index@ && tree.nodes@[i].node_type is File && 0 <= j < content_ids_of(tree.nodes@[i].content).len()
+                ==> ids.m@.dom().contains((BlobType::Data, (#[trigger] content_ids_of(tree.nodes@[i].content)[j]).v)),
+            forall|i: int| 0 <= i < it.index@ && (#[trigger] tree.nodes@[i]).node_type is Dir
+                ==> ids.m@.dom().contains((BlobType::Tree, tree.nodes@[i].subtree->0.v)),
+"""},
+         hints=[("loop_start", "1", "        proof { assert(tree.nodes@[it.index@] == *node); }")],
+         ),
 ]
 
 META = {"not_covered": []}
